@@ -556,7 +556,11 @@ theorem post_nodeSuccess {s : St} {obs : List Obs} {below : List Frame} (h : Bud
 theorem post_nodeDefault {s : St} {obs : List Obs} {below : List Frame} (h : Bud k c s obs (tokB n :: below)) (d : DagRef)
     (kw : Kwargs) : Post k (nodeDefault c s obs d n below kw) := by
   unfold nodeDefault
-  exact post_nodeSuccess (h.emit _ rfl) d _
+  split
+  · exact post_nodeSuccess (h.emit _ rfl) d _
+  · split
+    · exact post_nodeFail ((h.emit (.dflt n kw) rfl).mono (by wt) (by wt)) d n _
+    · exact post_raiseOut ((h.emit (.dflt n kw) rfl).same (sameL_nodeFinally _ _ _ _ _)) _ _
 
 theorem post_nodeSleep {s : St} {obs : List Obs} {below : List Frame} (h : Bud k c s obs (tokB n :: below)) (d : DagRef)
     (force : Bool) (kk : Nat) (kw : Kwargs) (inv : Nat) : Post k (nodeSleep c s obs d n force below kk kw inv) := by
